@@ -240,7 +240,13 @@ def numba_newton_raphson(
                 iterates[2],
             )
 
-        if (absolute_difference < atol) & (relative_difference < rtol):
+        if (
+            (absolute_difference < atol)
+            and (relative_difference < rtol)
+            and not aitken_step
+        ):
+            # (a small Aitken extrapolation step says nothing about the distance to
+            # the root- as in the fixed point solvers we do not stop on those)
             break
 
     else:
